@@ -2239,6 +2239,7 @@ struct Unclaim {
 impl Drop for Unclaim {
     fn drop(&mut self) {
         self.map.lock().remove(&self.key);
+        crate::vtrace!("map_remove", "pid" => self.key.0);
     }
 }
 
